@@ -255,8 +255,9 @@ def reloc_churn(cfg, rng):
         p = p + '/E%d' % d
         ops.append({'k': 'add_dir', 'iso': p, 'rr': 'e%d' % d})
     names = ['H', 'I', 'J'][:rng.randrange(1, 4)]
+    longn = rng.random() < 0.5      # relocated directories whose names need a continuation area (placeholder AND real record)
     for n in names:
-        ops.append({'k': 'add_dir', 'iso': p + '/' + n, 'rr': n.lower()})
+        ops.append({'k': 'add_dir', 'iso': p + '/' + n, 'rr': n.lower() * (230 if longn else 1)})
     order = list(names)
     rng.shuffle(order)
     for n in order:
